@@ -1223,6 +1223,96 @@ def l2_lock_rule_laws(F, r):
         r.fail("LockingConstraint::evaluate_route", f"not evaluable: {e}", F.loc(er[0]))
 
 
+TO = "vrp_core::construction::features::tour_order::"
+
+
+def r3_tour_order_laws(F, r):
+    """task order as a hard rule: ordered jobs come before unordered ones, `Ignored` never constrains; a violation is raised iff the earlier activity compares Greater
+    than the later one; earlier activities are paired (early, target) and later ones (target, late)"""
+    from .. import ordeval as oe
+    OR = TO + "OrderResult"
+    cmpf = TO + "compare_order_results"
+    if OR not in F.adts or cmpf not in F.fns:
+        raise AnchorError(cmpf)
+    kinds = [v["n"] for v in F.adts[OR]["v"]]
+    if sorted(kinds) != ["Default", "Ignored", "Value"]:
+        raise AnchorError(f"OrderResult variants {kinds}")
+
+    def val(kind, name):
+        return ("agg", OR + "#" + kind, {"0": oe.sym(name)} if kind == "Value" else {})
+    for a in kinds:
+        for b in kinds:
+            it = oe.Interp(F, cmpf, {1: val(a, "a"), 2: val(b, "b")}, fresh=True)
+            inst = f"compare_order_results [{a},{b}]"
+            try:
+                paths = it.explore()
+            except oe.Undecided as e:
+                r.fail(inst, f"not evaluable: {e}", F.loc(cmpf))
+                continue
+            for p in paths:
+                rel = [x[2] for x in p.assumptions if len(x) == 3 and isinstance(x[2], str) and x[0] != "switch"]
+                if (a, b) == ("Value", "Value"):
+                    want = ("ord", rel[0]) if rel else None
+                elif (a, b) == ("Value", "Default"):
+                    want = ("ord", "L")
+                elif (a, b) == ("Default", "Value"):
+                    want = ("ord", "G")
+                else:
+                    want = ("ord", "E")
+                if p.ret == want:
+                    r.ok(inst + (f" a{'<=>'['LEG'.index(rel[0])]}b" if rel else ""), f"{p.ret[1]}")
+                else:
+                    r.fail(inst, f"answers {p.ret}, expected {want}: ordered jobs must precede unordered ones (Value < Default), values compare by total_cmp, Ignored never constrains", F.loc(cmpf))
+    ms = [x for x in F.trait_impl_methods("vrp_core::models::goal::FeatureConstraint::evaluate") if "TourOrderConstraint" in x]
+    if len(ms) != 1 or len(F.children.get(ms[0], [])) != 1:
+        raise AnchorError("TourOrderConstraint::evaluate closure")
+    c = F.children[ms[0]][0]
+    ups = F.fns[c].get("upvars", [])
+    it = oe.Interp(F, c, {1: ("closure", c, [oe.ref(oe.sym("self")) for _ in ups]), 2: oe.sym("first"), 3: oe.sym("second"), 4: oe.sym("stopped")}, fresh=True, enum_results=True)
+    try:
+        for p in it.explore():
+            o = [x[2] for x in p.assumptions if x[0] == "callret" and x[3] and x[3].endswith("compare_order_results")]
+            if not o:
+                r.fail("TourOrderConstraint [check]", "the pair is not compared with compare_order_results", F.loc(c))
+                continue
+            inst = f"TourOrderConstraint [earlier {'<=>'['LEG'.index(o[0])]} later]"
+            viol = p.ret != oe.NONE
+            if viol != (o[0] == "G"):
+                r.fail(inst, ("violation" if viol else "no violation") + " — a hard order violation is raised iff the earlier activity's order is Greater than the later one's", F.loc(c))
+            elif viol:
+                st = p.ret[1][2].get("stopped") if p.ret and p.ret[0] == "some" and p.ret[1] and p.ret[1][0] == "agg" else None
+                if st == oe.sym("stopped"):
+                    r.ok(inst, "violation; abort flag passed through")
+                else:
+                    r.fail(inst, f"the violation's `stopped` flag is {st}, not the flag supplied by the scan direction", F.loc(c))
+            else:
+                r.ok(inst, "no violation")
+    except oe.Undecided as e:
+        r.fail("TourOrderConstraint [check]", f"not evaluable: {e}", F.loc(c))
+    er = TO + "evaluate_result"
+    if er not in F.fns:
+        raise AnchorError(er)
+    early = late = None
+    for g in F.family(er):
+        fn = F.fns[g]
+        if fn["kind"] != "Closure":
+            continue
+        e = mir.expr(fn, {"l": 0, "p": []})
+        if e[0][0] == "agg" and len(e[0][2]) == 3 and e[0][2][2][0][0] == "const":
+            a0, a1, flag = e[0][2]
+            if a0 == (("arg", 2), ()) and flag[0][1] == "true":
+                early = (g, a1)
+            elif a1 == (("arg", 2), ()) and flag[0][1] == "false":
+                late = (g, a0)
+            else:
+                r.fail("evaluate_result: pairing", "a neighbour is paired with the target in the wrong order or with the wrong abort flag: earlier activities must be checked as "
+                       "(early, target, abort) and later ones as (target, late, continue)", F.loc(g))
+    if early and late and early[1] == late[1]:
+        r.ok("evaluate_result: pairing", "(early, target, true) for activities before the position, (target, late, false) after it")
+    elif early is None or late is None:
+        r.ok("evaluate_result: pairing", "not decided: the two directions are not written as tuple-building closures")
+
+
 CAP_NAMES = ("capacity", "available", "resource_available", "resources", "resource_capacity")
 
 
@@ -1625,6 +1715,7 @@ def run(ctx):
     ctx.run("C01-Q1", "no comparison in constraint code relates a value to itself (a constant guard)", q1_no_self_comparison, floor=1)
     from .common import operator_agreement
     ctx.run("C01-O2", "load / cost / statistic operators: every impl Add/Sub/Mul computes with its own operator family", operator_agreement, floor=8)
+    ctx.run("C01-R3", "task order as a hard rule: comparison table, violation iff Greater, pairing of earlier / later activities", r3_tour_order_laws, floor=12)
     ctx.run("C01-L2", "relation pinning: contiguity, departure/arrival anchoring and vehicle pinning laws (finite evaluation of Rule::can_insert / evaluate_route)", l2_lock_rule_laws, floor=2)
     ctx.run("C01-G5", "compatibility / group admission laws (finite evaluation of the evaluate functions)", g5_group_compat_laws, floor=10)
     ctx.run("C01-C1", "capacity: demand parts tested against their own load summaries; violation iff some load does not fit; abort only for static delivery", c1_capacity_law, floor=5)
